@@ -27,6 +27,7 @@ func c04(c *core.Ctx) map[string]interface{} {
 	r4seqof(c)
 	r4frag(c)
 	r4entry(c)
+	r4bits(c)
 	include(c, "C03")
 	return map[string]interface{}{"ngap_types": len(s.Types)}
 }
